@@ -1,4 +1,5 @@
 import MuduoVerif.Proofs.Codec
+import MuduoVerif.Proofs.Http
 /-!
 # C18 — stream decoders: segmentation-invariant, bounded, reject malformed input
 
@@ -215,5 +216,290 @@ theorem adler32_vectors :
 example : ∃ (c : Cfg) (p : Bytes), c.tag.length + p.length + kChecksumLen ≤ kMaxMessageLen ∧
     c.parsePayload p = true ∧ c.rawSkip (encode c p) = false ∧ p ≠ [] :=
   ⟨{ tag := rpcTag, parsePayload := fun _ => true }, [8, 1], by decide, rfl, rfl, by decide⟩
+
+/-! ## the HTTP request parser (`HttpContext`, `HttpRequest`) -/
+
+/-! ### the request line against a declarative spec
+
+The spec below is written from the HTTP/1.x grammar with byte literals only - it uses nothing of
+`Generated/Http.lean` or `Model/Http.lean` except the names of the `Method` / `Version`
+enumerators:
+
+    request-line = method SP request-target SP "HTTP/1." ( "0" / "1" )
+    method       = "GET" / "POST" / "HEAD" / "PUT" / "DELETE"        ; what the library supports
+    request-target = 1*( any octet except SP and CTL ), not beginning with "?" (the path is not empty)
+
+It is deliberately lenient on the *form* of the target (origin, absolute, authority and asterisk
+form all pass; octets above 0x7f pass), so that only unambiguous violations count. -/
+
+def SP : UInt8 := 0x20
+/-- CTL = %x00-1F / %x7F -/
+def CTL (b : UInt8) : Prop := b.toNat ≤ 0x1f ∨ b.toNat = 0x7f
+/-- the method tokens and what they denote -/
+def methods : List (List UInt8 × Gen.Http.Method) :=
+  [([0x47, 0x45, 0x54], .kGet),                       -- GET
+   ([0x50, 0x4f, 0x53, 0x54], .kPost),                -- POST
+   ([0x48, 0x45, 0x41, 0x44], .kHead),                -- HEAD
+   ([0x50, 0x55, 0x54], .kPut),                       -- PUT
+   ([0x44, 0x45, 0x4c, 0x45, 0x54, 0x45], .kDelete)]  -- DELETE
+/-- "HTTP/1." -/
+def httpVersionPrefix : List UInt8 := [0x48, 0x54, 0x54, 0x50, 0x2f, 0x31, 0x2e]
+/-- the minor-version digit and what it denotes -/
+def minorVersions : List (UInt8 × Gen.Http.Version) := [(0x30, .kHttp10), (0x31, .kHttp11)]
+
+def ValidTarget (t : List UInt8) : Prop :=
+  t ≠ [] ∧ t.head? ≠ some 0x3f ∧ ∀ b ∈ t, b ≠ SP ∧ ¬ CTL b
+
+def ValidLine (line : List UInt8) : Prop :=
+  ∃ m t d, m ∈ methods.map (·.1) ∧ ValidTarget t ∧ d ∈ minorVersions.map (·.1) ∧
+    line = m ++ [SP] ++ t ++ [SP] ++ httpVersionPrefix ++ [d]
+
+private theorem targetOk_iff (t : List UInt8) (hsp : Gen.Http.targetSep ∉ t) :
+    Http.targetOk t ↔ ValidTarget t := by
+  unfold Http.targetOk ValidTarget
+  rw [Http.find_ne_zero_iff, Http.findIf_eq_length_iff]
+  have hq : Gen.Http.querySep = 0x3f := rfl
+  rw [hq]
+  constructor
+  · rintro ⟨⟨h1, h2⟩, h3⟩
+    refine ⟨h1, h2, fun b hb => ⟨fun e => hsp (by rw [e] at hb; exact hb), ?_⟩⟩
+    have := h3 b hb
+    simp only [decide_eq_false_iff_not] at this
+    intro hc; apply this
+    unfold Gen.Http.isControl; unfold CTL at hc; omega
+  · rintro ⟨h1, h2, h3⟩
+    refine ⟨⟨h1, h2⟩, fun b hb => ?_⟩
+    simp only [decide_eq_false_iff_not]
+    intro hc; apply (h3 b hb).2
+    unfold Gen.Http.isControl at hc; unfold CTL; omega
+
+/-- **request line**: `processRequestLine` accepts a line iff it is
+`METHOD SP request-target SP "HTTP/1." ("0"|"1")` with one of the five supported methods and a
+request-target that is non-empty, free of SP and CTL and has a non-empty path.  (Full strength
+since the fix of F19: before it, an empty target, a target consisting of a query only, and
+control bytes in the target were accepted.) -/
+theorem line_valid_iff (line : List UInt8) :
+    (Http.processRequestLine line).isSome ↔ ValidLine line := by
+  have hmeth : Gen.Http.methodTable.map (·.1) = methods.map (·.1) := by decide
+  have hver : Gen.Http.versionTable.map (·.1) = [0x31, 0x30] := by decide
+  have hms : Gen.Http.methodSep = SP := rfl
+  have hts : Gen.Http.targetSep = SP := rfl
+  constructor
+  · intro h
+    cases h1 : Http.splitAt Gen.Http.methodSep line with
+    | none =>
+      rw [Http.processRequestLine_no_sep line ((Http.splitAt_eq_none_iff _ _).mp h1)] at h
+      cases h
+    | some mr =>
+      obtain ⟨m, rest⟩ := mr
+      obtain ⟨hline, hm⟩ := (Http.splitAt_eq_some_iff _ _ _ _).mp h1
+      cases h2 : Http.splitAt Gen.Http.targetSep rest with
+      | none =>
+        rw [hline, Http.processRequestLine_one_sep m rest hm ((Http.splitAt_eq_none_iff _ _).mp h2)] at h
+        cases h
+      | some tv =>
+        obtain ⟨t, ver⟩ := tv
+        obtain ⟨hrest, ht⟩ := (Http.splitAt_eq_some_iff _ _ _ _).mp h2
+        rw [hline, hrest, Http.processRequestLine_parts m t ver hm ht] at h
+        split at h
+        · rename_i hc
+          obtain ⟨hma, hto⟩ := hc
+          rw [Option.isSome_map] at h
+          obtain ⟨d, hd, hv⟩ := (Http.versionOf_isSome_iff ver).mp h
+          refine ⟨m, t, d, ?_, (targetOk_iff t ht).mp hto, ?_, ?_⟩
+          · rw [← hmeth]; exact (Http.setMethod_accepted_iff m).mp hma
+          · rw [hver] at hd
+            simp only [minorVersions, List.map_cons, List.map_nil, List.mem_cons, List.not_mem_nil, or_false] at hd ⊢
+            exact hd.symm
+          · rw [hline, hrest, hv, hms, hts]
+            have : Gen.Http.versionPrefix = httpVersionPrefix := rfl
+            rw [this]
+            simp only [List.append_assoc, List.cons_append, List.nil_append]
+        · cases h
+  · rintro ⟨m, t, d, hm, ht, hd, rfl⟩
+    have hm_sp : ∀ m ∈ methods.map (·.1), Gen.Http.methodSep ∉ m := by decide
+    have ht_sp : Gen.Http.targetSep ∉ t := fun h => (ht.2.2 _ h).1 hts
+    have hform : m ++ [SP] ++ t ++ [SP] ++ httpVersionPrefix ++ [d]
+        = m ++ Gen.Http.methodSep :: (t ++ Gen.Http.targetSep :: (Gen.Http.versionPrefix ++ [d])) := by
+      have : Gen.Http.versionPrefix = httpVersionPrefix := rfl
+      rw [this, hms, hts]
+      simp only [List.append_assoc, List.cons_append, List.nil_append]
+    rw [hform, Http.processRequestLine_parts m t _ (hm_sp m hm) ht_sp]
+    rw [if_pos ⟨(Http.setMethod_accepted_iff m).mpr (by rw [hmeth]; exact hm), (targetOk_iff t ht_sp).mpr ht⟩]
+    rw [Option.isSome_map]
+    refine (Http.versionOf_isSome_iff _).mpr ⟨d, ?_, rfl⟩
+    rw [hver]
+    simp only [minorVersions, List.map_cons, List.map_nil, List.mem_cons, List.not_mem_nil, or_false] at hd ⊢
+    exact hd.symm
+
+/-- ... and what an accepted line sets: the method and version the tokens denote, the path = the
+target up to the first "?", the query = the rest of the target from that "?" on -/
+theorem line_valid_result (e : List UInt8 × Gen.Http.Method) (t : List UInt8) (v : UInt8 × Gen.Http.Version)
+    (he : e ∈ methods) (ht : ValidTarget t) (hv : v ∈ minorVersions) :
+    Http.processRequestLine (e.1 ++ [SP] ++ t ++ [SP] ++ httpVersionPrefix ++ [v.1]) =
+      some { method := e.2, path := t.takeWhile (· != 0x3f), query := t.dropWhile (· != 0x3f), version := v.2 } := by
+  have hmt : methods = Gen.Http.methodTable := by decide
+  have hms : Gen.Http.methodSep = SP := rfl
+  have hts : Gen.Http.targetSep = SP := rfl
+  have hm_sp : ∀ e ∈ methods, Gen.Http.methodSep ∉ e.1 := by decide
+  have ht_sp : Gen.Http.targetSep ∉ t := fun h => (ht.2.2 _ h).1 hts
+  have hform : e.1 ++ [SP] ++ t ++ [SP] ++ httpVersionPrefix ++ [v.1]
+      = e.1 ++ Gen.Http.methodSep :: (t ++ Gen.Http.targetSep :: (Gen.Http.versionPrefix ++ [v.1])) := by
+    have : Gen.Http.versionPrefix = httpVersionPrefix := rfl
+    rw [this, hms, hts]
+    simp only [List.append_assoc, List.cons_append, List.nil_append]
+  have he' : e ∈ Gen.Http.methodTable := hmt ▸ he
+  have hv' : v ∈ Gen.Http.versionTable := by
+    have : ∀ v ∈ minorVersions, v ∈ Gen.Http.versionTable := by decide
+    exact this v hv
+  rw [hform, Http.processRequestLine_parts e.1 t _ (hm_sp e he) ht_sp]
+  rw [if_pos ⟨(Http.setMethod_accepted_iff e.1).mpr (List.mem_map.mpr ⟨e, he', rfl⟩), (targetOk_iff t ht_sp).mpr ht⟩]
+  rw [Http.versionOf_append v hv', Http.setMethod_of_mem e he', Http.take_find, Http.drop_find]
+  rfl
+
+/-- the three repaired halves of F19, stated directly: whatever the method token and whatever
+follows the second separator, a request-target that is empty, or begins with "?" (empty path),
+or contains a control byte makes the line invalid -/
+theorem malformed_target_rejected (m t ver : List UInt8) (hm : SP ∉ m) (ht : SP ∉ t)
+    (hbad : t = [] ∨ t.head? = some 0x3f ∨ ∃ b ∈ t, CTL b) :
+    Http.processRequestLine (m ++ [SP] ++ t ++ [SP] ++ ver) = none := by
+  have hform : m ++ [SP] ++ t ++ [SP] ++ ver
+      = m ++ Gen.Http.methodSep :: (t ++ Gen.Http.targetSep :: ver) := by
+    have hms : Gen.Http.methodSep = SP := rfl
+    have hts : Gen.Http.targetSep = SP := rfl
+    rw [hms, hts]
+    simp only [List.append_assoc, List.cons_append, List.nil_append]
+  rw [hform, Http.processRequestLine_parts m t ver hm ht, if_neg]
+  rintro ⟨_, hto⟩
+  obtain ⟨h1, h2, h3⟩ := (targetOk_iff t ht).mp hto
+  rcases hbad with h | h | ⟨b, hb, hc⟩
+  · exact h1 h
+  · exact h2 h
+  · exact (h3 b hb).2 hc
+
+/-- the hypotheses of the theorems above are satisfiable, and the witnesses of the old defects are
+invalid lines: `GET /x?y=1 HTTP/1.1` is valid; `GET  HTTP/1.1`, `GET ? HTTP/1.1` and
+`GET /<01> HTTP/1.0` are rejected -/
+theorem line_examples :
+    ValidLine [0x47, 0x45, 0x54, 0x20, 0x2f, 0x78, 0x3f, 0x79, 0x3d, 0x31, 0x20, 0x48, 0x54, 0x54, 0x50, 0x2f, 0x31, 0x2e, 0x31] ∧
+    Http.processRequestLine [0x47, 0x45, 0x54, 0x20, 0x2f, 0x78, 0x3f, 0x79, 0x3d, 0x31, 0x20, 0x48, 0x54, 0x54, 0x50, 0x2f, 0x31, 0x2e, 0x31]
+      = some { method := .kGet, path := [0x2f, 0x78], query := [0x3f, 0x79, 0x3d, 0x31], version := .kHttp11 } ∧
+    Http.processRequestLine [0x47, 0x45, 0x54, 0x20, 0x20, 0x48, 0x54, 0x54, 0x50, 0x2f, 0x31, 0x2e, 0x31] = none ∧
+    Http.processRequestLine [0x47, 0x45, 0x54, 0x20, 0x3f, 0x20, 0x48, 0x54, 0x54, 0x50, 0x2f, 0x31, 0x2e, 0x31] = none ∧
+    Http.processRequestLine [0x47, 0x45, 0x54, 0x20, 0x2f, 0x01, 0x20, 0x48, 0x54, 0x54, 0x50, 0x2f, 0x31, 0x2e, 0x30] = none := by
+  refine ⟨?_, by decide, by decide, by decide, by decide⟩
+  rw [← line_valid_iff]; decide
+
+/-! ### segmentation invariance, complete lines only, termination
+
+`Http.feed` is one delivery to a connection served the way `HttpServer::onMessage` does it
+(`parseRequest`; on failure give up; on `gotAll()` hand the request over and `reset()`), repeated
+while complete requests keep coming out of the buffer.  `Http.Parsing ctx`: the parser stands at
+a line boundary of an unfinished request (state `kExpectRequestLine` / `kExpectHeaders`) - the
+states in which the server calls it. -/
+
+/-- **segmentation invariance**: delivering a request stream to a fresh connection in any chunks
+gives the same requests in the same order, the same first error, the same unconsumed bytes
+(hence consumed count) and the same request under construction as delivering it in one piece -/
+theorem http_seg_invariant (chunks : List (List UInt8)) :
+    Http.feedAll Http.init chunks = Http.feed Http.init chunks.flatten := by
+  rw [Http.feedAll_eq chunks Http.init Http.Parsing.fresh, Http.feed_eq Http.init Http.Parsing.fresh]
+  exact feedAll_flatten Http.stepOk chunks Http.init Http.init_settled
+
+/-- the same from any connection at rest (abandoned, or waiting for the rest of a line) -/
+theorem http_seg_invariant_from (d : Dec Http.Ctx) (hI : Http.Parsing d.s)
+    (hd : d.dead = true ∨ Http.findCRLF d.buf = none) (chunks : List (List UInt8)) :
+    Http.feedAll d chunks = Http.feed d chunks.flatten := by
+  rw [Http.feedAll_eq chunks d hI, Http.feed_eq d hI]
+  refine feedAll_flatten Http.stepOk chunks d ⟨hI, hd.imp id fun h => ?_⟩
+  rcases Http.lineStep_cases hI d.buf with ⟨_, hn⟩ | ⟨j, hj, _⟩
+  · unfold Http.step; rw [hn]
+  · rw [h] at hj; cases hj
+
+/-- two segmentations of the same stream are indistinguishable -/
+theorem http_seg_any_two (chunks₁ chunks₂ : List (List UInt8)) (h : chunks₁.flatten = chunks₂.flatten) :
+    Http.feedAll Http.init chunks₁ = Http.feedAll Http.init chunks₂ := by
+  rw [http_seg_invariant, http_seg_invariant, h]
+
+/-- **only complete lines are consumed**: an iteration of the parser that consumes `k` bytes has
+found a CR LF at offset `k - 2` inside the received bytes (it consumes exactly that line and its
+terminator), and its verdict is the same whatever arrives behind that line; without a CR LF in
+the buffer the whole driver consumes nothing, reports nothing and keeps its state -/
+theorem only_complete_lines (ctx : Http.Ctx) (hI : Http.Parsing ctx) (buf : List UInt8) :
+    (∀ ctx' evs k, Http.step ctx buf = .adv ctx' evs k →
+      ∃ j, k = j + 2 ∧ k ≤ buf.length ∧ buf.drop j = 13 :: 10 :: buf.drop k ∧
+        ∀ more, Http.step ctx (buf.take k ++ more) = .adv ctx' evs k) ∧
+    (Http.findCRLF buf = none →
+      Http.serve ctx buf = { s := ctx, rest := buf, dead := false, stuck := false, evs := [] }) := by
+  constructor
+  · intro ctx' evs k h
+    rcases Http.lineStep_cases hI buf with ⟨_, hn⟩ | ⟨j, hj, hc⟩
+    · unfold Http.step at h; rw [hn] at h; cases h
+    · obtain ⟨hj2, hdrop⟩ := Http.findCRLF_some buf j hj
+      have hk : k = j + 2 := by
+        unfold Http.step at h
+        rcases hc with hf | ⟨c, hc, _⟩ | ⟨c, hc, _⟩
+        · rw [hf] at h; cases h
+        · rw [hc] at h; simp only [Out.adv.injEq] at h; exact h.2.2.symm
+        · rw [hc] at h; simp only [Out.adv.injEq] at h; exact h.2.2.symm
+      subst hk
+      refine ⟨j, rfl, hj2, hdrop, fun more => ?_⟩
+      -- the first j+2 bytes already hold the CR LF at j
+      have htake : Http.findCRLF (buf.take (j + 2)) = some j := by
+        have h1 : buf = buf.take (j + 2) ++ buf.drop (j + 2) := (List.take_append_drop _ _).symm
+        cases hf : Http.findCRLF (buf.take (j + 2)) with
+        | some i =>
+          have := Http.findCRLF_append _ (buf.drop (j + 2)) i hf
+          rw [← h1, hj] at this
+          exact this.symm
+        | none =>
+          exfalso
+          refine Http.findCRLF_none _ hf j [] ?_
+          have h2 : (buf.take (j + 2)).drop j = (buf.drop j).take 2 := by
+            rw [List.drop_take]; congr 1; omega
+          rw [h2, hdrop]; rfl
+      have hstep : Http.step ctx (buf.take (j + 2)) = .adv ctx' evs (j + 2) := by
+        unfold Http.step at h ⊢
+        have hl : Http.lineStep ctx (buf.take (j + 2) ++ buf.drop (j + 2)) = Http.lineStep ctx (buf.take (j + 2)) :=
+          Http.lineStep_append ctx _ _ j htake
+        rw [List.take_append_drop] at hl
+        rw [← hl]; exact h
+      exact Http.stepOk.adv_mono more hI hstep
+  · intro hn
+    rw [Http.serve_eq_drain ctx buf hI, drain_unfold Http.stepOk ctx buf hI]
+    rcases Http.lineStep_cases hI buf with ⟨_, hne⟩ | ⟨j, hj, _⟩
+    · unfold Http.step; rw [hne]
+    · rw [hn] at hj; cases hj
+
+/-- **termination** under the stated precondition: called in a state the server calls it in,
+`parseRequest` returns, and so does the whole drain driver -/
+theorem http_terminates (ctx : Http.Ctx) (hI : Http.Parsing ctx) (buf : List UInt8) :
+    (Http.parseRequest ctx buf).stuck = false ∧ (Http.serve ctx buf).stuck = false := by
+  refine ⟨(Http.parseLoop_drain _ ctx buf hI (Nat.lt_succ_self _)).2.1, ?_⟩
+  rw [Http.serve_eq_drain ctx buf hI]
+  exact drain_not_stuck Http.stepOk _ ctx buf rfl hI
+
+/-- **termination finding**: the `while (hasMore)` loop of `parseRequest` has no arm for
+`kGotAll` and an empty one for `kExpectBody`; called in one of these states it never returns
+(whatever the buffer holds, for every iteration allowance the model is still running).  The
+real driver `HttpServer::onMessage` resets the context after `gotAll()`, so it does not get there. -/
+theorem parse_spins (ctx : Http.Ctx) (h : ctx.state = .kGotAll ∨ ctx.state = .kExpectBody) (buf : List UInt8) :
+    (∀ n, (Http.parseLoop n ctx buf).stuck = true ∧ (Http.parseLoop n ctx buf).rest = buf) ∧
+    (Http.parseRequest ctx buf).stuck = true := by
+  have hs : Http.spins ctx.state = true := by
+    rcases h with h | h <;> rw [h] <;> decide
+  refine ⟨fun n => ?_, ?_⟩
+  · rw [Http.parseLoop_spins ctx hs n buf]; exact ⟨rfl, rfl⟩
+  · unfold Http.parseRequest; rw [Http.parseLoop_spins ctx hs _ buf]
+
+/-- the invariant is not vacuous: a fresh context satisfies it, and a complete request delivered
+in two pieces split between CR and LF comes out as one request -/
+theorem http_example :
+    Http.Parsing Http.Ctx.fresh ∧
+    (Http.feedAll Http.init [[0x47, 0x45, 0x54, 0x20, 0x2f, 0x20, 0x48, 0x54, 0x54, 0x50, 0x2f, 0x31, 0x2e, 0x30, 0x0d],
+                             [0x0a, 0x0d, 0x0a]]).2
+      = [.request { method := .kGet, version := .kHttp10, path := [0x2f], query := [], headers := [] }] := by
+  refine ⟨Http.Parsing.fresh, ?_⟩
+  rw [http_seg_invariant]; decide
 
 end MuduoVerif.C18
